@@ -20,6 +20,10 @@ NONLINEAR = set(UN) - {"neg"} | {"mul", "div", "pow", "log"} | set(DEG)
 
 EDGE = 0.05
 
+# central values that coincide with constants the code (or a shortcut in it) may single out
+SPECIAL_VALUES = [10.0, 10.0, 2.0, math.e, 1.0, 3.0, 0.5, 100.0, -1.0, -2.0, 4.0, 90.0, 180.0,
+                  45.0, 60.0, 0.0, 0.0, math.pi, math.pi / 2]
+
 
 def ref_un(op, x):
     """reference value + domain guard (keeps generated points away from singularities)"""
@@ -90,8 +94,13 @@ def gen_case(rng, max_ops=8, max_meas=5, allow_pairs=True, allow_corr=True, ops=
             rng.uniform(-1, 1)
         if abs(v) < EDGE:
             v = EDGE * 2 if v >= 0 else -EDGE * 2
+        if rng.random() < 0.12:
+            # readings that coincide with numbers the code may treat specially
+            v = rng.choice(SPECIAL_VALUES)
         r = rng.random()
         e = 0.0 if r < 0.12 else abs(v) * 10 ** rng.uniform(-6, -0.7)
+        if v == 0.0:
+            e = 10 ** rng.uniform(-3, -0.7)     # a reading of exactly 0 with an uncertainty
         if vals and rng.random() < 0.15:
             v = rng.choice(vals)     # two distinct measurements with exactly the same reading
         vals.append(float(v))
@@ -99,7 +108,7 @@ def gen_case(rng, max_ops=8, max_meas=5, allow_pairs=True, allow_corr=True, ops=
     raw = {}
     if allow_repeated:
         for i in range(n_meas):
-            if errs[i] > 0 and rng.random() < 0.25:
+            if errs[i] > 0 and vals[i] != 0.0 and rng.random() < 0.25:
                 k = rng.randint(2, 6)
                 spread = errs[i] * math.sqrt(k)
                 xs = [vals[i] + rng.gauss(0, 1) * spread for _ in range(k)]
@@ -133,6 +142,44 @@ def gen_case(rng, max_ops=8, max_meas=5, allow_pairs=True, allow_corr=True, ops=
     made = 0
     tries = 0
     used_ops = []
+    pairs_made = []
+    template = None
+    if rng.random() < 0.10:
+        # a formula that starts from a special point: a measured logarithm base that equals a
+        # familiar constant, or a stationary point of the formula (derivative exactly 0 there)
+        k = rng.randrange(n_meas)
+        raw.pop(str(k), None)
+        if rng.random() < 0.5:
+            template = "logbase"
+            vals[k] = rng.choice([10.0, 10.0, 2.0, math.e])
+            errs[k] = vals[k] * 10 ** rng.uniform(-3, -1)
+            ref[k] = vals[k]
+            others = [j for j in range(n_meas) if j != k and EDGE <= vals[j] <= 1e6]
+            if others and rng.random() < 0.6:
+                seq = [["bin", "log", k, rng.choice(others)]]
+            else:       # log(b, b*b): the base occurs in the argument as well
+                seq = [["bin", "mul", k, k], ["bin", "log", k, n_meas]]
+        else:
+            template = "stationary"
+            vals[k] = 0.0
+            errs[k] = 10 ** rng.uniform(-2.5, -0.7)
+            ref[k] = 0.0
+            seq = [rng.choice([["un", "cos", k], ["un", "sec", k], ["deg", "cosd", k],
+                               ["deg", "secd", k], ["bin", "mul", k, k]])]
+        for node in seq:
+            if node[0] == "un":
+                v = ref_un(node[1], ref[node[2]])
+            elif node[0] == "deg":
+                v = ref_un(node[1][:-1], ref[node[2]] / 180 * math.pi)
+            else:
+                v = ref_bin(node[1], ref[node[2]], ref[node[3]])
+            if v is None:
+                break
+            nodes.append(node)
+            ref.append(float(v))
+            quantity.append(True)
+            used_ops.append(node[1])
+            made += 1
     while made < n_ops and tries < n_ops * 30:
         tries += 1
         qidx = [i for i, isq in enumerate(quantity) if isq]
@@ -174,6 +221,9 @@ def gen_case(rng, max_ops=8, max_meas=5, allow_pairs=True, allow_corr=True, ops=
             else:
                 pv = rng.choice([1, -1]) * 10 ** rng.uniform(-1, 1)
                 pe = abs(pv) * 10 ** rng.uniform(-4, -1)
+                if pairs_made and rng.random() < 0.4:
+                    # the same numbers as an earlier pair: still another, independent measurement
+                    pv, pe = rng.choice(pairs_made)
                 leaf, bref = ("pair", float(pv), float(pe)), float(pv)
             swap = rng.random() < 0.5
             xr, yr = (bref, ref[a]) if swap else (ref[a], bref)
@@ -190,6 +240,7 @@ def gen_case(rng, max_ops=8, max_meas=5, allow_pairs=True, allow_corr=True, ops=
                 else:
                     vals.append(leaf[1])
                     errs.append(leaf[2])
+                    pairs_made.append((leaf[1], leaf[2]))
                     nodes.append(["pair", len(vals) - 1])
                 ref.append(bref)
                 quantity.append(False)   # a number / tuple operand is never reused
@@ -244,7 +295,8 @@ def gen_case(rng, max_ops=8, max_meas=5, allow_pairs=True, allow_corr=True, ops=
                 if ref_eval_all(probe, trial) is not None:
                     revalue = [k, bits(trial[k])]
                     break
-    return {"fault": bool(allow_revalue and rng.random() < 0.3), "revalue": revalue, "revise": revise, "nodes": nodes, "root": root, "vals": [bits(v) for v in vals],
+    return {"template": template, "equal_pairs": len(pairs_made) - len(set(pairs_made)),
+            "fault": bool(allow_revalue and rng.random() < 0.3), "revalue": revalue, "revise": revise, "nodes": nodes, "root": root, "vals": [bits(v) for v in vals],
             "errs": [bits(e) for e in errs], "rho": rho, "n_meas": n_meas, "raw": raw,
             "ops": used_ops, "ref_value": bits(ref[root])}
 
